@@ -596,6 +596,37 @@ def gen_truss(rng):
     return s
 
 
+def gen_asym_joint(rng):
+    """two bars meeting at a free joint: a loaded bar rigid at both ends, and a bar hinged at its far
+    (clamped) end and rigid at the joint - drawn towards the joint or away from it.  The joint's rotation
+    equation is shared by both bars; which bar is assembled first depends on where each one starts."""
+    s = Structure()
+    std_mat_sec(s, rng)
+    dx, dy, unit = _rat_dir(rng)
+    ex, ey, unit2 = _rat_dir(rng)
+    L1, L2 = _len_for(rng, unit), _len_for(rng, unit2)
+    x1, y1 = Fr(rng.randint(-20, 20)) * 10, Fr(rng.randint(-20, 20)) * 10
+    s.nodes["n1"] = (x1, y1, (True, True, True))
+    s.nodes["n2"] = (x1 + dx * L1, y1 + dy * L1, (False, False, False))
+    s.nodes["n3"] = (x1 + dx * L1 + ex * L2, y1 + dy * L1 + ey * L2, (True, True, True))
+    if s.nodes["n3"][:2] == s.nodes["n1"][:2]:
+        s.nodes["n3"] = (s.nodes["n3"][0] + 50, s.nodes["n3"][1] + 20, (True, True, True))
+    m, c = rng.choice(list(s.mats)), rng.choice(list(s.secs))
+    s.bars.append({"id": "b1", "n1": "n1", "l1": LINKS["rigid"], "n2": "n2", "l2": LINKS["rigid"], "mat": m, "sec": c})
+    if rng.random() < 0.6:
+        s.bars.append({"id": "b2", "n1": "n3", "l1": LINKS["pin"], "n2": "n2", "l2": LINKS["rigid"], "mat": m, "sec": c})
+    else:
+        s.bars.append({"id": "b2", "n1": "n2", "l1": LINKS["rigid"], "n2": "n3", "l2": LINKS["pin"], "mat": m, "sec": c})
+    v = Fr(rng.choice([-60, -25, 40]))
+    s.loads = [{"kind": "d", "term": "fy", "local": True, "bar": "b1", "t0": Fr(0), "v0": v, "t1": Fr(1), "v1": v * rng.choice([1, 2])}]
+    if rng.random() < 0.5:
+        s.loads.append({"kind": "c", "term": "mz", "local": True, "bar": "b1", "t": Fr(1), "v": Fr(rng.choice([-4000, 2500]))})
+    if rng.random() < 0.5:
+        s.loads += gen_loads_for_bar(rng, "b2", nmax=2, allow_mz_dist=False)
+    s.meta = {"kind": "asym_joint/%s" % ("towards" if s.bars[1]["n2"] == "n2" else "away")}
+    return s
+
+
 def gen_solvable(rng):
     s = _gen_solvable(rng)
     # loads applied exactly on bar ends (they go to the joint / the support): forces and moments,
